@@ -184,10 +184,23 @@ func checkC03(w *World) {
 			}
 			doneH[fn] = true
 			for _, st := range resultStores(fn, r) {
-				concat := sliceContains(st.Val, func(v ssa.Value) bool {
+				var isConcat func(v ssa.Value, depth int) bool
+				isConcat = func(v ssa.Value, depth int) bool {
 					c, ok := v.(*ssa.Call)
 					if !ok {
 						return false
+					}
+					// a helper of the package that concatenates and hands the result back
+					if g := staticCallee(c); g != nil && fnPkgKey(g) == "exec" && depth < 2 && len(g.Blocks) > 0 {
+						found := false
+						allInstrs(g, func(in ssa.Instruction) {
+							if ret, isRet := in.(*ssa.Return); isRet && len(ret.Results) == 1 {
+								if sliceContains(ret.Results[0], func(x ssa.Value) bool { return isConcat(x, depth+1) }) {
+									found = true
+								}
+							}
+						})
+						return found
 					}
 					b, ok := c.Call.Value.(*ssa.Builtin)
 					if !ok || b.Name() != "append" || !types.Identical(c.Type(), r.NodeSet) && !isCursorSlice(c.Type(), r) {
@@ -199,8 +212,24 @@ func checkC03(w *World) {
 							return false
 						}
 					}
+					if depth > 0 {
+						// inside a helper: only the concatenation of node-sets the helper was handed (a parameter, or an
+						// element of a parameter), not of what it computes itself (an axis selector has its own order)
+						fromParam := false
+						backSlice(c.Call.Args[1], func(x ssa.Value) bool {
+							if _, isCall := x.(*ssa.Call); isCall {
+								return false
+							}
+							if _, isP := x.(*ssa.Parameter); isP {
+								fromParam = true
+							}
+							return true
+						})
+						return fromParam
+					}
 					return true
-				})
+				}
+				concat := sliceContains(st.Val, func(v ssa.Value) bool { return isConcat(v, 0) })
 				if !concat {
 					continue
 				}
@@ -273,6 +302,11 @@ func checkC03(w *World) {
 	var foreignAt func(fn *ssa.Function, v ssa.Value, seen map[string]bool) []string
 	foreignAt = func(fn *ssa.Function, v ssa.Value, seen map[string]bool) []string {
 		var out []string
+		// the slice kept in a field of an accumulator object of the package: local iff every store into that field,
+		// anywhere in the package, is a make, or an append to / a re-slice of the field itself
+		if w.accumulatorField(v) {
+			return nil
+		}
 		for t := range eff.newOriginCtx(fn).origin(v) {
 			if t == "L" {
 				continue
@@ -526,4 +560,109 @@ func (w *World) isIncomingNodeSet(v ssa.Value, fn *ssa.Function, r *Roles, depth
 		}
 	}
 	return true
+}
+
+// accumulatorField: v is (a re-slice of) the value loaded from field F of a struct type T declared in package exec, and
+// every store into T.F in the package keeps the invariant "a slice allocated by the evaluator": the stored value is a
+// make, a composite literal, or an append to / re-slice of a value loaded from T.F itself (appending elements never
+// makes the backing array foreign).
+func (w *World) accumulatorField(v ssa.Value) bool {
+	field := func(x ssa.Value) (*types.Struct, int, bool) {
+		for i := 0; i < 4; i++ {
+			switch y := x.(type) {
+			case *ssa.Slice:
+				x = y.X
+				continue
+			case *ssa.ChangeType:
+				x = y.X
+				continue
+			}
+			break
+		}
+		ld, ok := x.(*ssa.UnOp)
+		if !ok || ld.Op != token.MUL {
+			return nil, 0, false
+		}
+		fa, ok := ld.X.(*ssa.FieldAddr)
+		if !ok {
+			return nil, 0, false
+		}
+		pt, ok := fa.X.Type().Underlying().(*types.Pointer)
+		if !ok {
+			return nil, 0, false
+		}
+		n, ok := types.Unalias(pt.Elem()).(*types.Named)
+		if !ok || n.Obj().Pkg() == nil || n.Obj().Pkg().Path() != modPath+"/exec" || n.Obj().Exported() {
+			return nil, 0, false
+		}
+		st, ok := n.Underlying().(*types.Struct)
+		if !ok {
+			return nil, 0, false
+		}
+		return st, fa.Field, true
+	}
+	st, f, ok := field(v)
+	if !ok {
+		return false
+	}
+	var local func(x ssa.Value, depth int) bool
+	local = func(x ssa.Value, depth int) bool {
+		if depth > 6 {
+			return false
+		}
+		switch y := x.(type) {
+		case *ssa.MakeSlice:
+			return true
+		case *ssa.Const:
+			return y.Value == nil // nil slice
+		case *ssa.Slice:
+			if _, isAlloc := y.X.(*ssa.Alloc); isAlloc {
+				return true // composite literal
+			}
+			return local(y.X, depth+1)
+		case *ssa.ChangeType:
+			return local(y.X, depth+1)
+		case *ssa.Phi:
+			for _, e := range y.Edges {
+				if e != ssa.Value(y) && !local(e, depth+1) {
+					return false
+				}
+			}
+			return true
+		case *ssa.Call:
+			if b, isB := y.Call.Value.(*ssa.Builtin); isB && b.Name() == "append" {
+				return local(y.Call.Args[0], depth+1)
+			}
+			return false
+		case *ssa.UnOp:
+			s2, f2, ok2 := field(y)
+			return ok2 && s2 == st && f2 == f
+		}
+		return false
+	}
+	n, all := 0, true
+	w.forAllFuncs("exec", func(fn *ssa.Function) {
+		allInstrs(fn, func(in ssa.Instruction) {
+			s, ok := in.(*ssa.Store)
+			if !ok {
+				return
+			}
+			fa, ok := s.Addr.(*ssa.FieldAddr)
+			if !ok || fa.Field != f {
+				return
+			}
+			pt, ok := fa.X.Type().Underlying().(*types.Pointer)
+			if !ok {
+				return
+			}
+			if s2, ok := pt.Elem().Underlying().(*types.Struct); !ok || s2 != st {
+				return
+			}
+			n++
+			if !local(s.Val, 0) {
+				all = false
+			}
+		})
+	})
+	return n > 0 && all
 }
